@@ -456,6 +456,33 @@ def flag_discipline(sym):
     return True
 
 
+def cached_replay(sym):
+    """BinaryOperator.yield_final_output_from_cache / yield_from_cache: what is replayed for a covered lookup is
+       self._most_general_(cache.retrieve(<lookup>)) - every retrieved row, reduced to the most general ones."""
+    cls = find(sym, ast.ClassDef, 'BinaryOperator')
+    ok = True
+    for name in ('yield_final_output_from_cache', 'yield_from_cache'):
+        fn = method(cls, name)
+        loops = [n for n in ast.walk(fn) if isinstance(n, ast.For)]
+        need(len(loops) == 1, f'BinaryOperator.{name}: expected exactly one loop over the retrieved rows')
+        it = loops[0].iter
+        direct = (isinstance(it, ast.Call) and isinstance(it.func, ast.Attribute) and it.func.attr == 'retrieve')
+        filtered = (isinstance(it, ast.Call) and isinstance(it.func, ast.Attribute) and it.func.attr == '_most_general_'
+                    and isinstance(it.func.value, ast.Name) and it.func.value.id == 'self' and len(it.args) == 1
+                    and isinstance(it.args[0], ast.Call) and isinstance(it.args[0].func, ast.Attribute)
+                    and it.args[0].func.attr == 'retrieve')
+        need(direct or filtered, f'BinaryOperator.{name}: the loop does not run over cache.retrieve(...)')
+        ok = ok and filtered
+    mg = method(cls, '_most_general_')
+    src = ast.dump(mg)
+    # the selection itself is modelled by hand (IndexedMemo_Facts.most_general); here only its ingredients are pinned:
+    # same truth flag, shorter-or-earlier, containment of every item
+    for token, what in (("other_is_false", 'compares the truth flags'), ("len", 'compares the sizes of the rows'),
+                        ("items", 'tests containment item by item'), ("enumerate", 'breaks ties by position')):
+        need(token in src, f'BinaryOperator._most_general_: no longer {what}')
+    return ok
+
+
 def rule_builders(rule):
     """rule.refinement / rule.alternative_or_next: how the new operator is wrapped around the current node and linked into the
     operator above it.  Recognised shapes only; anything else is refused."""
@@ -575,6 +602,7 @@ def emit(d):
     mb = mode_bracketing(sym)
     bd = block_discipline(sym)
     fd = flag_discipline(sym)
+    cr = cached_replay(sym)
     rb = rule_builders(parse(os.path.join(d, 'rule.py')))
     lz = lazy_iteration(parse(os.path.join(d, 'hashed_data.py')))
     o = []
@@ -645,6 +673,8 @@ def emit(d):
     o.append("(* Comparator / AND / ElseIf ._evaluate__: in every loop over rows the truth flag is set before it is stored with the row,")
     o.append("   read by the duplicate check, or read by the consumer after a yield *)")
     o.append(f"Definition row_flag_is_current : bool := {'true' if fd else 'false'}.")
+    o.append("(* BinaryOperator.yield_final_output_from_cache / yield_from_cache replay self._most_general_(cache.retrieve(lookup)) *)")
+    o.append(f"Definition replay_keeps_most_general : bool := {'true' if cr else 'false'}.")
     o.append("")
     o.append("(* rule.refinement / rule.alternative_or_next: how the new operator is linked into the tree (see RuleTree.v) *)")
     o.append("Inductive relink := RelinkNone | RelinkRightOnly | RelinkSide.")
